@@ -1,7 +1,7 @@
 """Bounded stand-in (public API, real Boolector) for C04: list constraints hold on exactly the list the user sees."""
 import itertools
 import random
-from pyvc.contract import contract
+from pyvc.contract import contract, library_only
 
 
 def list_cases(tier, seed):
@@ -166,6 +166,7 @@ def c_lists(c, kind, body, signed):
                         c.check("C04: assignment replaces the exposed list", [int(x) for x in o.l] == [1, 2])
                     expect_len = len(o.l)
             except Exception as e:
+                library_only(e)
                 c.check("C04: no exception other than SolveFailure", False, info="%s %s: %s" % (tag, type(e).__name__, e))
     elif kind == "objects_randsz":
         @vsc.randobj
@@ -206,6 +207,7 @@ def c_lists(c, kind, body, signed):
                 c.check("C04: the foreach body holds for every element of the final random-size object list, call after call", ok,
                         info="call %d sizes %r elems %r" % (call, sizes, xs))
         except Exception as e:
+            library_only(e)
             c.check("C04: no exception other than SolveFailure", False, info="objects_randsz %s %s: %s" % (body, type(e).__name__, e))
     elif kind == "objects":
         @vsc.randobj
@@ -273,6 +275,7 @@ def c_lists(c, kind, body, signed):
                     (all(x < 6 and y > x for x, y in xs) if body == "obj_field" else all(x == i + 2 for i, (x, y) in enumerate(xs)))
                     and all(x != y for x, y in xs), info=repr(xs))
         except Exception as e:
+            library_only(e)
             c.check("C04: no exception other than SolveFailure", False, info="objects %s %s: %s" % (body, type(e).__name__, e))
     else:
         @vsc.randobj
@@ -292,4 +295,5 @@ def c_lists(c, kind, body, signed):
                         info=repr(L))
                 c.check("C04: enum list indexing and iteration agree", [o.l[i] for i in range(3)] == L)
         except Exception as e:
+            library_only(e)
             c.check("C04: no exception other than SolveFailure", False, info="enum %s: %s" % (type(e).__name__, e))
